@@ -23,6 +23,10 @@ const REF_TICK_LIMIT: u64 = 100_000;
 /// caught panic instead of a stack overflow that takes the worker down. Runs
 /// on intact text have no limit: there a stack overflow is a violation.
 const CORRUPTED_TEXT_DEPTH: u32 = 200;
+/// Evaluation fuel for corrupted text: exhaustion is `inconclusive` there
+/// anyway (a flipped loop bound or condition is an honest long loop), so a
+/// small budget only saves time.
+const CORRUPTED_TEXT_FUEL: u64 = 200_000;
 
 fn n_project_units(tier: &str) -> u64 {
     if tier == "thorough" {
@@ -101,6 +105,7 @@ impl<'a> UnitRun<'a> {
         let mut spec = spec.clone();
         if spec.faults.iter().any(|f| f.corrupts_text()) {
             spec.depth_limit = CORRUPTED_TEXT_DEPTH;
+            spec.eval_fuel = CORRUPTED_TEXT_FUEL;
         }
         let spec = &spec;
         let s2 = spec.clone();
@@ -221,7 +226,41 @@ fn content_faults(rng: &mut Rng, path: &str, b: &[u8], full: bool, other: &[u8])
     out
 }
 
+/// Corpus items whose every single-bit flip is enumerated (quick: the short ones).
+fn flip_items(ctx: &Ctx) -> Vec<usize> {
+    let max = if ctx.tier == "thorough" { 400 } else { 48 };
+    (0..ctx.corpus.len()).filter(|&i| { let n = ctx.corpus[i].input.len(); n > 0 && n <= max }).collect()
+}
+
 impl FsFault {
+    /// Every single-bit flip of one short corpus item, delivered as the entry
+    /// file under its native extension (storage / transfer corruption).
+    fn flip_unit(&self, ctx: &Ctx, unit: u64, progress: Progress) -> UnitResult {
+        let items = flip_items(ctx);
+        let item = &ctx.corpus[items[unit as usize % items.len()]];
+        let mut ur = UnitRun { res: UnitResult::default(), idx: 0, progress, project_hash: hash_bytes(17, item.input.as_bytes()) };
+        ur.res.bump("flip_items", 1);
+        let ext = item.native_syntax();
+        let target = format!("/w/x.{}", ext);
+        let mut spec = JobSpec::default();
+        spec.files = vec![(target.clone(), item.input.clone().into_bytes())];
+        spec.entry = Entry::Path(format!("x.{}", ext));
+        spec.compressed = unit % 2 == 1;
+        let r0 = match ur.case(&spec, true) {
+            Some(r) => r,
+            None => return ur.res,
+        };
+        let ref_ok = matches!(r0.outcome, Outcome::Ok(_) | Outcome::Err(_)) && r0.eval_ticks < REF_TICK_LIMIT;
+        for i in 0..item.input.len() {
+            for b in 0..8u8 {
+                let mut s2 = spec.clone();
+                s2.faults = vec![Fault::Content { path: target.clone(), what: ContentFault::BitFlip(i, b) }];
+                ur.case(&s2, ref_ok);
+            }
+        }
+        ur.res
+    }
+
     fn project_unit(&self, ctx: &Ctx, unit: u64, progress: Progress) -> UnitResult {
         let mut rng = Rng::new(mix(mix_str(ctx.seed, "fsfault-project"), unit));
         let pools = Pools::new(&ctx.corpus, true);
@@ -376,7 +415,7 @@ impl Engine for FsFault {
         "fault_enumeration"
     }
     fn units(&self, ctx: &Ctx) -> u64 {
-        n_project_units(&ctx.tier) + n_sweep_units(ctx)
+        n_project_units(&ctx.tier) + n_sweep_units(ctx) + flip_items(ctx).len() as u64
     }
     fn stack_bytes(&self) -> usize {
         // generous, so that the depth limit above always fires first on corrupted text
@@ -385,10 +424,13 @@ impl Engine for FsFault {
     fn run_unit(&self, ctx: &Ctx, unit: u64, progress: Progress) -> UnitResult {
         let np = n_project_units(&ctx.tier);
         // interleave so that a time-boxed run sees both kinds
+        let ns = n_sweep_units(ctx);
         if unit < np {
             self.project_unit(ctx, unit, progress)
-        } else {
+        } else if unit < np + ns {
             self.sweep_unit(ctx, unit - np, progress)
+        } else {
+            self.flip_unit(ctx, unit - np - ns, progress)
         }
     }
     fn exec(&self, _ctx: &Ctx, case: &Value) -> Vec<Violation> {
@@ -411,6 +453,7 @@ impl Engine for FsFault {
         let mut spec = spec;
         if spec.faults.iter().any(|f| f.corrupts_text()) {
             spec.depth_limit = CORRUPTED_TEXT_DEPTH;
+            spec.eval_fuel = CORRUPTED_TEXT_FUEL;
         }
         let r = run_job(&spec);
         match judge(&spec, &r, ref_ok).0 {
@@ -425,7 +468,7 @@ impl Engine for FsFault {
         }
     }
     fn rule(&self) -> String {
-        "workloads are seeded: multi-file projects (entry + 1..5 files reached through @import/@use/@forward/meta.load-css, three syntaxes, bodies from the pinned suite's inputs and outputs) and single corpus items under each extension, as entry and as loaded file. Per workload the fault position is enumerated: every Fs operation index of the fault-free run x every applicable error kind (read_err x5, canon_err, vanish, vanish-after-is_file), and per delivered file torn(n) for every byte offset n (stratified for files > 256 B in the quick tier), zeroed, zero_tail, bitflip, invalid-UTF-8 byte, stale_tail; plus a 10% tail of two-fault runs. A case is non-trivial iff its fault actually fired (the call happened and was altered); distinct = distinct (workload hash, fault list) among those.".into()
+        "workloads are seeded: multi-file projects (entry + 1..5 files reached through @import/@use/@forward/meta.load-css, three syntaxes, bodies from the pinned suite's inputs and outputs) and single corpus items under each extension, as entry and as loaded file. Per workload the fault position is enumerated: every Fs operation index of the fault-free run x every applicable error kind (read_err x5, canon_err, vanish, vanish-after-is_file), and per delivered file torn(n) for every byte offset n (stratified for files > 256 B in the quick tier), zeroed, zero_tail, bitflip, invalid-UTF-8 byte, stale_tail; plus a 10% tail of two-fault runs. In addition every single-bit flip of every corpus item of at most 48 bytes (thorough: 400 bytes) is delivered as an entry file. A case is non-trivial iff its fault actually fired (the call happened and was altered); distinct = distinct (workload hash, fault list) among those.".into()
     }
     fn assumptions(&self) -> Vec<String> {
         vec![
